@@ -68,6 +68,11 @@ where
 
     async fn send(self: Pin<&mut Self>, future: Fut) -> ConsumerState {
         let this = self.project();
+        // Never forward more than `limit` items: once the limit has been reached
+        // (immediately for `take(0)`) the item is dropped and the driver is told to stop.
+        if *this.count >= *this.limit {
+            return ConsumerState::Break;
+        }
         *this.count += 1;
         let state = this.inner.send(future).await;
         if this.count >= this.limit {
